@@ -8,7 +8,22 @@ def main():
     bad = []
     n = 0
     tmp = tempfile.mkdtemp(prefix="rdverif_sp_")
-    for c in json.load(sys.stdin):
+    req = json.load(sys.stdin)
+    other_a, other_b = "H-3", "C-14"
+    if isinstance(req, dict):
+        if req.get("ds") == "synth":
+            from radioactivedecay.decaydata import load_dataset
+            D = load_dataset("synth", os.environ["VERIF_SYNTH_DIR"], load_sympy=True)
+            other_a, other_b = "Ru-99", "Xe-131"
+        req = req["cases"]
+    class _RD:      # the same entry points, bound to the data set under test
+        Nuclide = staticmethod(lambda x: rd_mod.Nuclide(x, D))
+        Inventory = staticmethod(lambda c, u: rd_mod.Inventory(c, u, True, D))
+        InventoryHP = staticmethod(lambda c, u: rd_mod.InventoryHP(c, u, True, D))
+        read_csv = staticmethod(lambda p: rd_mod.read_csv(p, decay_data=D))
+    rd_mod = rd
+    rd = _RD
+    for c in req:
         name = c["name"]
         ref_hl = D.half_life(name, "s")
         for sp in c["spellings"]:
@@ -21,14 +36,16 @@ def main():
                 if got != want:
                     bad.append([label, repr(sp), name, f"gave {got!r}, expected {want!r}"])
             chk("Nuclide", lambda: rd.Nuclide(sp).nuclide, name)
+            if "fields" in c:
+                chk("Nuclide Z/A/state/id", lambda: [rd.Nuclide(sp).Z, rd.Nuclide(sp).A, rd.Nuclide(sp).state, rd.Nuclide(sp).id], c["fields"])
             chk("Inventory key", lambda: rd.Inventory({sp: 1.0}, "num").nuclides, [name])
             chk("InventoryHP key", lambda: rd.InventoryHP({sp: 1.0}, "num").nuclides, [name])
             def rm():
-                inv = rd.Inventory({name: 1.0, "H-3" if name != "H-3" else "C-14": 2.0}, "num"); inv.remove(sp); return inv.nuclides
-            chk("remove", rm, ["H-3" if name != "H-3" else "C-14"])
+                inv = rd.Inventory({name: 1.0, other_a if name != other_a else other_b: 2.0}, "num"); inv.remove(sp); return inv.nuclides
+            chk("remove", rm, [other_a if name != other_a else other_b])
             def rml():
-                inv = rd.Inventory({name: 1.0, "H-3" if name != "H-3" else "C-14": 2.0}, "num"); inv.remove([sp]); return inv.nuclides
-            chk("remove list", rml, ["H-3" if name != "H-3" else "C-14"])
+                inv = rd.Inventory({name: 1.0, other_a if name != other_a else other_b: 2.0}, "num"); inv.remove([sp]); return inv.nuclides
+            chk("remove list", rml, [other_a if name != other_a else other_b])
             def add():
                 inv = rd.Inventory({name: 1.0}, "num"); inv.add({sp: 2.0}, "num"); return dict(inv.contents)
             chk("add", add, {name: 3.0})
